@@ -23,7 +23,7 @@ BOUNDS = {
     'thorough': 'shipped libraries: counts symbolic on 12 basis descriptors, 3 subsets each',
 }
 STUBS = ['NpShim/Arr for numpy in group_data (zeros, item assignment, transpose, dot, square, sqrt)',
-         'SQRT uninterpreted with s>=0 and s*s = t for t >= 0; the radicand handed to sqrt is what is compared',
+         'SQRT is a bare uninterpreted function: the radicand handed to sqrt is compared with RMSE^2 x.M.x and the value returned must be that sqrt term (sign and value of the root are numpy.sqrt\'s contract)',
          'RMSE correlation = stub returning a symbolic real']
 ASSUMPTIONS = ['float := real', "x'Mx >= 0 (sqrt of a negative radicand is outside the claim; PSD-ness of shipped matrices is C14)",
                'shipped libraries: the other basis counts are 0']
@@ -76,7 +76,8 @@ _sqrt_args = []
 def _install():
     m = th.install()
     if REPLAY is None:
-        orig = nm.NpShim.sqrt
+        def orig(x):
+            return x.map(nm.sqrt_uf) if isinstance(x, nm.Arr) else nm.sqrt_uf(x)
 
         def rec_sqrt(x):
             r = orig(x)
